@@ -505,7 +505,13 @@ func (x *runner) runBindServer(c bindServerCase) {
 				x.res.Fail("C12/bind/server/callback-arguments", fmt.Sprintf("callback got (%q, %q), request asks %q from %q", calls[0].j, calls[0].res, wantRes, remote), c)
 			}
 		}
-		if clear && addressesOK(reqNode) && c.Verdict != "other-error" {
+		noRemote := c.Verdict == "default" && remote.Equal(jid.JID{})
+		if noRemote && clear && addressesOK(reqNode) && (err == nil || len(replyBytes) != 0) {
+			// no address is known for the peer: there is nothing a fresh resource
+			// could be bound to (JID.WithResource refuses), bind must fail
+			x.res.Fail("C12/bind/server/default-without-remote-address", fmt.Sprintf("the peer has no address, yet err=%v and the reply is %q", err, replyBytes), c)
+		}
+		if clear && addressesOK(reqNode) && c.Verdict != "other-error" && !noRemote {
 			switch {
 			case !replyOK || len(replyNodes) != 1 || replyNodes[0].Text != nil:
 				x.res.Fail("C12/bind/server/no-reply", fmt.Sprintf("the request is not answered with one element (err=%v): %s", err, replyBytes), c)
@@ -566,11 +572,11 @@ func (x *runner) runBindServer(c bindServerCase) {
 					if ok {
 						var perr error
 						j, perr = jid.Parse(jids[0])
-						ok = perr == nil || remote.Equal(jid.JID{})
+						ok = perr == nil
 					}
-					if !ok || (!remote.Equal(jid.JID{}) && (!j.Bare().Equal(remote.Bare()) || j.Resourcepart() == "")) {
+					if !ok || !j.Bare().Equal(remote.Bare()) || j.Resourcepart() == "" {
 						x.res.Fail("C12/bind/server/default-address", fmt.Sprintf("default reply (type %q) carries %q for remote %q", typ, jids, remote), c)
-					} else if !remote.Equal(jid.JID{}) {
+					} else {
 						if j.Resourcepart() == lastDefaultResource {
 							x.res.Fail("C12/bind/server/resource-not-fresh", "two default binds produced the same resource "+j.Resourcepart(), c)
 						}
